@@ -275,6 +275,10 @@ func c04ParamSets(tier string) (ps []c04Params, d int) {
 				ps = append(ps, c04Params{Initial: "", Chunks: chunks, Regex: "a", Cap: 100})
 				ps = append(ps, c04Params{Initial: "", Chunks: chunks, Cap: 100, Pause: 150 * time.Millisecond})
 			}
+			if len(chunks) == 2 {
+				// the second write lands at the instant of the follower's periodic (3 s) truncation check
+				ps = append(ps, c04Params{Initial: "old\n", Chunks: chunks, Cap: 100, Pause: 3 * time.Second})
+			}
 			if len(chunks) == 2 && strings.Count(chunks[0], "\n") >= 2 {
 				ps = append(ps, c04Params{Initial: "old\n", Chunks: chunks, Cap: 1, Late: true, MidDrain: 1})
 			}
